@@ -32,6 +32,7 @@ try)
   cd /repo || exit 2
   test -z "$(git status --porcelain)" || { echo "/repo not clean"; exit 2; }
   git apply /verif/seeded/$name/patch.diff || { echo "patch does not apply"; exit 2; }
+  export VERIF_EVIDENCE_DIR=/tmp/seeded_evidence
   for p in "$@"; do
     /verif/vcheck check $p --tier quick 2>&1 | grep -E "^violation|^VIOLATION|^ok|harness|KNOWN" | cut -c1-400
     echo "exit[$p]=${PIPESTATUS[0]}"
